@@ -1,4 +1,4 @@
-import BfeVerif.C38.Shape
+import BfeVerif.C38.Status
 /-!
   C38 — HTTP/2 responses carry exactly the handler's response.   Property theorems only.
 
@@ -43,6 +43,38 @@ theorem C38_bodyless_refused (env : Env) (s : St) (p : List Nat) (hw : s.wroteHe
   unfold rwWrite
   simp [hw, hs]
 
+def envConst : Env := { sniff := fun _ => [64], now := [64] }
+
+/-! ### status and header fields -/
+
+/-- the header map that reaches the wire: the handler's additions before its first WriteHeader / Write / Flush
+    (`hdrAdds`), minus the keys `cloneHeader` filters (canonical form in `HopHeaders`), minus a non-empty
+    Content-Length (re-emitted by the server if it is a non-negative integer) -/
+def sentSnap (acts : List Act) : HMap := clenSnap (snapAt (hdrAdds [] acts))
+
+/-- **C38_status_headers**: for every handler script the first frame of the response is a HEADERS frame whose
+    fields are, in this order: `:status` with the status the handler chose (`statusOf`: its first WriteHeader, 200
+    if it wrote or flushed first); then exactly `encodeHeaders` of `sentSnap` — every value of every remaining key,
+    keys in byte order and lower-cased, values in the handler's order, dropping only names / values that are not
+    valid HTTP/2 field names / values (and `transfer-encoding` ≠ trailers); then only server-added fields named
+    content-type, content-length or date. -/
+theorem C38_status_headers (env : Env) (isHead : Bool) (acts : List Act) :
+    ∃ es rest autos,
+      (∀ f ∈ autos, f.1 = lContentType ∨ f.1 = lContentLength ∨ f.1 = lDate) ∧
+      (runHandler env isHead acts).out =
+        Frame.headers ((lStatus, itoa (statusOf acts)) ::
+          (encodeHeaders (sentSnap acts) (sortStrs ((sentSnap acts).map (·.1))) ++ autos)) es :: rest := by
+  have h := pa_finish env acts [] { isHead := isHead } ⟨rfl, rfl, rfl, rfl, rfl⟩
+  obtain ⟨_, es, rest, autos, ha, e⟩ := h
+  exact ⟨es, rest, autos, ha, e⟩
+
+/-- non-vacuity: two values under one key, a mixed-case key, a hop-by-hop key, status 404 set after the headers -/
+example : (runHandler envConst false
+    [Act.add [88,45,65] [49], Act.add [120,45,98] [50], Act.add [88,45,65] [51], Act.add [85,112,103,114,97,100,101] [52],
+     Act.status 404, Act.add [88,45,67] [53], Act.status 500]).out
+    = [Frame.headers [(lStatus, [52,48,52]), ([120,45,97], [49]), ([120,45,97], [51]), ([120,45,98], [50]),
+        (lContentType, [64]), (lContentLength, [48]), (lDate, [64])] true] := by decide
+
 /-! ### frame sequence and END_STREAM -/
 
 /-- exactly one frame carries END_STREAM and it is the last one. -/
@@ -54,10 +86,10 @@ def EndStreamOnce (o : List Frame) : Prop :=
     HEAD — exactly one frame of the response carries END_STREAM and it is the last frame. -/
 theorem C38_end_stream_once (env : Env) (isHead : Bool) (acts : List Act) :
     EndStreamOnce (runHandler env isHead acts).out := by
-  rcases final_run env isHead acts with ⟨F, h⟩ | ⟨F, ds, last, h, hds, hl⟩
+  rcases final_run env isHead acts with ⟨F, _, h⟩ | ⟨F, ds, last, h, hds, hl⟩
   · exact ⟨[], _, by rw [h]; rfl, rfl, fun _ hf => by cases hf⟩
   · refine ⟨Frame.headers F false :: ds, last, by rw [h]; rfl, ?_, ?_⟩
-    · rcases hl with ⟨p, hp⟩ | ⟨T, hT⟩
+    · rcases hl with ⟨p, hp⟩ | ⟨T, _, hT⟩
       · rw [hp]; rfl
       · rw [hT]; rfl
     · intro f hf
@@ -70,9 +102,9 @@ theorem C38_end_stream_once (env : Env) (isHead : Bool) (acts : List Act) :
 theorem C38_trailers_after_body (env : Env) (isHead : Bool) (acts : List Act) :
     ∃ F e ds tl, (runHandler env isHead acts).out = Frame.headers F e :: (ds ++ tl) ∧
       (∀ d ∈ ds, ∃ p e', d = Frame.data p e') ∧ (tl = [] ∨ ∃ T, tl = [Frame.headers T true]) := by
-  rcases final_run env isHead acts with ⟨F, h⟩ | ⟨F, ds, last, h, hds, hl⟩
+  rcases final_run env isHead acts with ⟨F, _, h⟩ | ⟨F, ds, last, h, hds, hl⟩
   · exact ⟨F, true, [], [], by rw [h]; rfl, (fun _ hf => by cases hf), Or.inl rfl⟩
-  · rcases hl with ⟨p, hp⟩ | ⟨T, hT⟩
+  · rcases hl with ⟨p, hp⟩ | ⟨T, _, hT⟩
     · refine ⟨F, false, ds ++ [last], [], by rw [h]; simp, ?_, Or.inl rfl⟩
       intro d hd
       rcases List.mem_append.mp hd with hd | hd
@@ -82,13 +114,63 @@ theorem C38_trailers_after_body (env : Env) (isHead : Bool) (acts : List Act) :
       intro d hd
       obtain ⟨q, hq⟩ := hds d hd; exact ⟨q, false, hq⟩
 
-def envConst : Env := { sniff := fun _ => [64], now := [64] }
+/-! ### on the wire: header blocks larger than one frame -/
+
+/-- **C38_continuation_split**: a header (or trailer) block whose HPACK encoding is `L > 0` bytes long is written as
+    one HEADERS frame carrying the block's END_STREAM flag, followed by CONTINUATION frames that never carry
+    END_STREAM; END_HEADERS is set on the last frame and only there; every fragment has 1..16384 bytes and the
+    fragments add up to `L`.  (Holds for every `L`, i.e. for any number of CONTINUATION frames.) -/
+theorem C38_continuation_split (L : Nat) (es : Bool) (hL : 0 < L) :
+    (∃ w rest, splitBlock L es = w :: rest ∧ w.cont = false ∧ w.es = es ∧ ∀ c ∈ rest, c.cont = true ∧ c.es = false) ∧
+    ehOk (splitBlock L es) = true ∧
+    (∀ w ∈ splitBlock L es, 0 < w.len ∧ w.len ≤ 16384) ∧
+    ((splitBlock L es).map (·.len)).sum = L :=
+  ⟨splitBlock_cons L es hL, splitAux_eh L L true es (Nat.le_refl _), splitAux_len L L true es,
+   splitAux_sum L L true es (Nat.le_refl _)⟩
+
+/-- exactly one wire frame carries END_STREAM; nothing but CONTINUATION frames of the same block follows it -/
+def WireEndOnce (ws : List Wire) : Prop :=
+  ∃ pre w conts, ws = pre ++ [w] ++ conts ∧ w.es = true ∧ (∀ x ∈ pre, x.es = false) ∧
+    (∀ c ∈ conts, c.cont = true ∧ c.es = false)
+
+/-- **C38_end_stream_once_wire**: `C38_end_stream_once` on the wire, for every HPACK length function that gives
+    non-empty blocks to non-empty field lists — also when header or trailer blocks are split into HEADERS +
+    CONTINUATION frames: exactly one frame carries END_STREAM; it is a DATA frame or the HEADERS frame of the last
+    block, and only that block's CONTINUATION frames follow it. -/
+theorem C38_end_stream_once_wire (env : Env) (encLen : List (Str × Str) → Nat)
+    (henc : ∀ F, F ≠ [] → 0 < encLen F) (isHead : Bool) (acts : List Act) :
+    WireEndOnce (wireOf encLen (runHandler env isHead acts).out) := by
+  rcases final_run env isHead acts with ⟨F, hF, h⟩ | ⟨F, ds, last, h, hds, hl⟩
+  · obtain ⟨w, rest, e, _, h2, h3⟩ := splitBlock_cons (encLen F) true (henc F hF)
+    refine ⟨[], w, rest, ?_, h2, (fun _ hx => by cases hx), h3⟩
+    rw [h]; simp [wireOf, e]
+  · have hpre : ∀ f ∈ Frame.headers F false :: ds, f.es = false := by
+      intro f hf
+      rcases List.mem_cons.mp hf with hf | hf
+      · rw [hf]; rfl
+      · obtain ⟨p, hp⟩ := hds f hf; rw [hp]; rfl
+    have hno := wireOf_noes encLen _ hpre
+    have hsplit : (runHandler env isHead acts).out = (Frame.headers F false :: ds) ++ [last] := by rw [h]; rfl
+    rw [hsplit, wireOf_append]
+    rcases hl with ⟨p, hp⟩ | ⟨T, hT, hl⟩
+    · refine ⟨_, { cont := false, es := true, eh := false, len := p.length }, [], ?_, rfl, hno, (fun _ hx => by cases hx)⟩
+      rw [hp]; simp [wireOf]
+    · obtain ⟨w, rest, e, _, h2, h3⟩ := splitBlock_cons (encLen T) true (henc T hT)
+      refine ⟨_, w, rest, ?_, h2, hno, h3⟩
+      rw [hl]; simp [wireOf, e]
 
 /-- the former witness of the `no-end-stream` defect (trailer `X-T1` declared, never set): before the fix the
     response had no END_STREAM at all; now the DATA frame carries it. -/
 def witnessActs : List Act := [Act.add sTrailer [88, 45, 84, 49], Act.write [97]]
 
 example : ((runHandler envConst false witnessActs).out.map Frame.es) = [false, true] := by decide
+
+/-- a block of 16385 bytes that ends the stream: HEADERS(END_STREAM, 16384 bytes) + CONTINUATION(END_HEADERS, 1 byte) -/
+example : splitBlock 16385 true =
+    [{ cont := false, es := true, eh := false, len := 16384 }, { cont := true, es := false, eh := true, len := 1 }] := by
+  decide
+
+example : splitBlock 16384 true = [{ cont := false, es := true, eh := true, len := 16384 }] := by decide
 
 /-- a response with real trailers: HEADERS, DATA, trailers(END_STREAM) -/
 example : ((runHandler envConst false
